@@ -223,7 +223,7 @@ NO_SHRINK_KEYS = ('targets',)
 
 
 def run(ctx):
-    ctx.hyp('strat_case', 3000 if ctx.quick else 100000, label=1)
-    ctx.hyp('strat_invalid', 300 if ctx.quick else 3000, label=2)
+    ctx.hyp('strat_case', 15000 if ctx.quick else 200000, label=1)
+    ctx.hyp('strat_invalid', 1500 if ctx.quick else 10000, label=2)
     return ctx.finish('exploration', 'Hypothesis targets: host names, IPv4, IPv6 (compressed and full) x ports {1, 22, 2222, 65535, random} x spellings (host, host:port, bare IPv6, [IPv6], [IPv6]:port) x {command line, targets file of 1-3 lines with blank / whitespace-only lines and surrounding blanks} x -p absent/present x {-4, -6, -46, -64, none} x synthetic resolver answers (v4 only, v6 only, both in either order); invalid ports {0, 65536, 99999, 70000, -1} in -p and in the spelling; non-trivial = IPv6, a family option, a file line overriding -p, or an invalid port',
                       assumptions=['an explicit port in the target spelling wins over -p ("the port option as default")', 'rate-test sockets need only be of an allowed family (that phase dials a single address)'])
